@@ -16,7 +16,12 @@ git -C "$WT" apply "$VERIF/seeded/$ID/patch.diff" || { echo "$ID: patch does not
 mkdir -p "$VC"
 rsync -a --exclude /scratch --exclude /replays --exclude /.git --exclude /shadow --exclude /target-real "$VERIF/" "$VC/"
 mkdir -p "$VERIF/scratch"
+if [ -n "${MUT_CMD:-}" ]; then
+  # run an arbitrary command in the scratch copy against the mutated build (for triage)
+  ( cd "$VC" && WILD_REPO="$WT" ./checks/build.sh && PYTHONPATH="$VC/harness" PYTHONHASHSEED=0 sh -c "$MUT_CMD" ) > "$VERIF/scratch/mut_${ID}_${CHK}.log" 2>&1; rc=$?
+else
 ( cd "$VC" && WILD_REPO="$WT" ./checks/run.sh "$CHK" "$TIER" ) > "$VERIF/scratch/mut_${ID}_${CHK}.log" 2>&1; rc=$?
+fi
 echo "mutant $ID vs check $CHK ($TIER): exit=$rc"
 grep -E "^VIOLATION|^  clause=|^HARNESS" "$VERIF/scratch/mut_${ID}_${CHK}.log" | cut -c1-200 | head -6
 exit 0
